@@ -60,13 +60,20 @@ def order_policy(cl, rng, n, replay):
     patterns = must + [p for p in patterns if p not in must]
     pool = {}
     done = 0
-    for pat in patterns:
+    for pi, pat in enumerate(patterns):
         if done >= n:
             break
         dts = [DTS[p] for p in pat]
         raws = []
+        quiet = pi % 3 == 2          # ground velocity in m/s: amplitudes around 1e-9 (different recordings, all "close" to one another in absolute terms)
         for i, dt in enumerate(dts):
-            raws.append(rp.gen_window(rng, N=int(rng.integers(60, 140)), dt=dt, scale=1.0))
+            raws.append(rp.gen_window(rng, N=int(rng.integers(60, 140)), dt=dt, scale=(1e-9 if quiet else 1.0)))
+        if len(raws) >= 3 and pi % 3 != 2:
+            # the same recording given twice, not next to each other (an identical copy is still its own entry of the list)
+            twins = [(a, b_) for a in range(len(raws)) for b_ in range(a + 2, len(raws)) if dts[a] == dts[b_]]
+            if twins:
+                a, b_ = twins[int(rng.integers(0, len(twins)))]
+                raws[b_] = tuple(np.array(x, copy=True) if isinstance(x, np.ndarray) else x for x in raws[a])
         for kind in kinds:
             alone = []
             for r in raws:
